@@ -27,6 +27,7 @@ var (
 	reLine    = regexp.MustCompile(`^(\d+)\s+(.*)$`)
 	reCall    = regexp.MustCompile(`^([a-z0-9_]+)\((.*)$`)
 	reResumed = regexp.MustCompile(`^<\.\.\. ([a-z0-9_]+) resumed>(.*)$`)
+	reResult  = regexp.MustCompile(`\)\s+= `)
 	reHex     = regexp.MustCompile(`(?:\\x[0-9a-f]{2})+`)
 )
 
@@ -84,13 +85,14 @@ func parseFull(pid int, text string, entry, exit int) (*sysRec, error) {
 	}
 	rest := m[2]
 	// the result is after the LAST ") = "
-	idx := strings.LastIndex(rest, ") = ")
-	if idx < 0 {
+	locs := reResult.FindAllStringIndex(rest, -1)
+	if locs == nil {
 		return nil, fmt.Errorf("no result: %.80s", text)
 	}
+	idx, end := locs[len(locs)-1][0], locs[len(locs)-1][1]
 	r := &sysRec{pid: pid, name: m[1], entrySeq: entry, exitSeq: exit}
 	r.args = splitArgs(rest[:idx])
-	res := strings.TrimSpace(rest[idx+4:])
+	res := strings.TrimSpace(rest[end:])
 	f := strings.Fields(res)
 	if len(f) > 0 {
 		r.ret = f[0]
